@@ -430,3 +430,88 @@ Proof.
     + rewrite assign_notin; [reflexivity|]. intros k. apply H.
     + intros k Hk. apply nth_error_swap in Hk. unfold swap in Hk; simpl in Hk. apply (H k). exact Hk.
 Qed.
+
+(* ------------------------------------------------------------------ triclinic minimum image *)
+Lemma zrange_spec K i : (0 <= K)%Z -> (In i (zrange K) <-> (- K <= i <= K)%Z).
+Proof.
+  intros HK. unfold zrange. rewrite in_map_iff. split.
+  - intros [n [<- Hn]]. apply in_seq in Hn. lia.
+  - intros H. exists (Z.to_nat (i + K)). split; [lia|]. apply in_seq. lia.
+Qed.
+
+Lemma fold_min_spec init l :
+  let m := fold_right Z.min init l in
+  (m <= init)%Z /\ (forall x, In x l -> (m <= x)%Z) /\ (m = init \/ In m l).
+Proof.
+  induction l as [|y r IH]; simpl.
+  - split; [lia|]. split; [intros x []|left; reflexivity].
+  - destruct IH as (H1 & H2 & H3). split; [lia|]. split.
+    + intros x [->|Hx]; [lia|]. specialize (H2 x Hx). lia.
+    + destruct (Z.min_spec y (fold_right Z.min init r)) as [[_ E]|[_ E]]; rewrite E.
+      * right; left; reflexivity.
+      * destruct H3 as [H3|H3]; [left; exact H3|right; right; exact H3].
+Qed.
+
+Definition image_d2 (a b c x y : vec) (i j k : Z) : Z :=
+  let '(x0, x1, x2) := x in let '(y0, y1, y2) := y in
+  let '(a0, a1, a2) := a in let '(b0, b1, b2) := b in let '(c0, c1, c2) := c in
+  let e0 := (x0 - y0 + i * a0 + j * b0 + k * c0)%Z in
+  let e1 := (x1 - y1 + i * a1 + j * b1 + k * c1)%Z in
+  let e2 := (x2 - y2 + i * a2 + j * b2 + k * c2)%Z in
+  (e0 * e0 + e1 * e1 + e2 * e2)%Z.
+
+(* the triclinic distance of the model is the squared length of some lattice image of x - y and is not
+   larger than that of any image with |i|,|j|,|k| <= K *)
+Theorem d2_tri_min_image K a b c x y : (0 <= K)%Z ->
+  (forall i j k, (- K <= i <= K)%Z -> (- K <= j <= K)%Z -> (- K <= k <= K)%Z ->
+     (d2_tri K a b c x y <= image_d2 a b c x y i j k)%Z) /\
+  (exists i j k, d2_tri K a b c x y = image_d2 a b c x y i j k).
+Proof.
+  intros HK.
+  destruct x as [[x0 x1] x2], y as [[y0 y1] y2], a as [[a0 a1] a2], b as [[b0 b1] b2], c as [[c0 c1] c2].
+  unfold d2_tri, image_d2.
+  match goal with |- context [fold_right Z.min ?init ?l] => destruct (fold_min_spec init l) as (H1 & H2 & H3) end.
+  split.
+  - intros i j k Hi Hj Hk. apply H2.
+    apply in_flat_map. exists i. split; [apply zrange_spec; assumption|].
+    apply in_flat_map. exists j. split; [apply zrange_spec; assumption|].
+    apply in_map_iff. exists k. split; [reflexivity|apply zrange_spec; assumption].
+  - destruct H3 as [H3|H3].
+    + exists 0%Z, 0%Z, 0%Z. rewrite H3. f_equal; [f_equal|]; ring.
+    + apply in_flat_map in H3. destruct H3 as [i [_ H3]].
+      apply in_flat_map in H3. destruct H3 as [j [_ H3]].
+      apply in_map_iff in H3. destruct H3 as [k [H3 _]].
+      exists i, j, k. symmetry. exact H3.
+Qed.
+
+(* ------------------------------------------------------------------ tie to the source text *)
+Require Import MD.Desc.SchemeDsl MD.Gen.DescSchemes MD.Desc.SchemeSem.
+
+(* The atom sets the model assigns to the schemes, its CA test and the constants of contacts='all' are those
+   written in contact.py today (terms regenerated into Gen/DescSchemes.v on every run).  The proof only uses
+   the truth tables of the predicates, so logically equivalent rewrites of the source keep it. *)
+Lemma filter_all_true {A} (f : A -> bool) l : (forall x, f x = true) -> filter f l = l.
+Proof. intros H. induction l as [|x r IH]; [reflexivity|]. simpl. now rewrite H, IH. Qed.
+
+Theorem schemes_match_source :
+  (forall s r, src_membership1 s r = membership1 s r) /\
+  (forall r, src_ca_atoms r = ca_atoms r) /\
+  (forall r, src_has_ca r = has_ca r) /\
+  all_min_separation = 3 /\ all_same_chain = true.
+Proof.
+  assert (Hca : forall r, src_ca_atoms r = ca_atoms r).
+  { intros r. unfold src_ca_atoms, ca_atoms.
+    f_equal; try (apply filter_ext; intros a; unfold is_ca; cbn [eval_apred ca_pred]; reflexivity). }
+  split; [|split; [exact Hca|split; [|split; reflexivity]]].
+  - intros s r. destruct s; [exact (Hca r)| | | |];
+      unfold src_membership1, membership1; cbn [scheme_name];
+      match goal with |- context [lookup_member ?t ?k] =>
+        let v := eval vm_compute in (lookup_member t k) in change (lookup_member t k) with v end;
+      cbn [eval_member eval_rpred];
+      try (destruct (String.eqb (r_name r) "GLY") eqn:EG; cbn [negb]);
+      f_equal; try (apply filter_ext; intros a; cbn [eval_apred]; unfold is_h;
+                    destruct (String.eqb (a_elem a) "H"); destruct (is_sidechain r a); reflexivity);
+      try (apply filter_all_true; intros a; reflexivity).
+  - intros r. unfold src_has_ca, has_ca.
+    induction (r_atoms r) as [|a l IH]; [reflexivity|]. cbn [existsb]. rewrite IH. reflexivity.
+Qed.
